@@ -175,6 +175,9 @@ def run_split(case):
     write_wav(wavfn, samples, width, rate)
     dur = n / rate
     # target tier from on-grid index pairs
+    case = dict(case, entries=[list(e) for e in case["entries"]])
+    if case.get("tiny") and case["entries"][-1][1] <= n - 1:
+        case["entries"].append([n - 0.875, n - 0.625, "tiny"])
     ents = [[i / rate, j / rate, lab] for (i, j, lab) in case["entries"]]
     tg = p.Textgrid(0, dur)
     tg.addTier(p.IntervalTier("target", [p.Interval(*e) for e in ents], 0, dur))
@@ -189,6 +192,12 @@ def run_split(case):
     flag, style, nopartial = case["tgflag"], case["style"], case["nopartial"]
     cl = set()
     what = f"splitAudioOnTier(outputTGFlag={flag!r}, nameStyle={style!r}, noPartialIntervals={nopartial})"
+    if case.get("rerun"):
+        write_wav(wavfn, [(-x if x else 1) for x in samples], width, rate)
+        with quiet():
+            praatio_scripts.splitAudioOnTier(wavfn, tgfn, "target", out, flag, style, nopartial)
+        write_wav(wavfn, samples, width, rate)
+        cl.add("rerun_over_existing_pieces")
     with quiet():
         res = praatio_scripts.splitAudioOnTier(wavfn, tgfn, "target", out, flag, style, nopartial)
     if len(res) != len(ents):
@@ -212,7 +221,11 @@ def run_split(case):
             if (wf.getnchannels(), wf.getsampwidth(), wf.getframerate()) != (1, width, rate):
                 raise Violation("file-params", f"{what}: {rname} has parameters {wf.getparams()}")
             got = from_bytes(wf.readframes(wf.getnframes()), width)
-        if got != samples[i:j]:
+        if lab == "tiny":
+            cl.add("entry_between_two_sample_positions")
+            if got not in ([], [samples[int(i)]]):
+                raise Violation("file-samples", f"{what}: {rname} holds {got[:6]}, the interval lies inside sample {int(i)}")
+        elif got != samples[i:j]:
             raise Violation("file-samples", f"{what}: {rname} holds {len(got)} samples {got[:6]}.., interval [{i}:{j}] is {samples[i:j][:6]}..")
         tgout = os.path.join(out, base + ".TextGrid")
         if flag is False:
@@ -224,7 +237,7 @@ def run_split(case):
             raise Violation("textgrid-missing", f"{what}: {base}.TextGrid not written")
         with open(tgout, "rb") as fd:
             data = tgspec.read_text(fd.read().decode("utf-8"))
-        length = Fraction(j - i, rate)
+        length = (Fraction(j) - Fraction(i)) / rate
         if data["xmin"] != 0 or abs(Fraction(data["xmax"]) - length) > Fraction(1, 10**9):
             raise Violation("cropped-span", f"{what}: {base}.TextGrid spans [{data['xmin']},{data['xmax']}], interval length {float(length)}")
         names = [t["name"] for t in data["tiers"]]
@@ -238,6 +251,20 @@ def run_split(case):
                 raise Violation("cropped-label", f"{what}: target tier of {base}.TextGrid holds {t['entries']}, expected the label {lab!r}")
         if not any(max(a, i) < min(b, j) for a, b, _ in case["secondary"]):
             cl.add("secondary_empty_under_interval")
+    # extractSubwav of a stretch between two sample positions: a file with the source's parameters holding nothing
+    # (or the one sample the stretch lies in)
+    k0 = case["entries"][0][0]
+    if k0 < n:
+        fn3 = os.path.join(d, "sub0.wav")
+        audio.extractSubwav(wavfn, fn3, (k0 + 0.125) / rate, (k0 + 0.375) / rate)
+        if not os.path.exists(fn3):
+            raise Violation("file-missing", f"extractSubwav(({k0}+0.125)/{rate}, ({k0}+0.375)/{rate}) wrote no file")
+        with wave.open(fn3, "r") as wf:
+            if (wf.getnchannels(), wf.getsampwidth(), wf.getframerate()) != (1, width, rate):
+                raise Violation("file-params", "extractSubwav changed the parameters (stretch between two sample positions)")
+            got = from_bytes(wf.readframes(wf.getnframes()), width)
+            if got not in ([], [samples[k0]]):
+                raise Violation("file-samples", f"extractSubwav of a stretch inside sample {k0} holds {got[:6]}")
     # extractSubwav on the first entry
     i, j, lab = case["entries"][0]
     fn2 = os.path.join(d, "sub.wav")
@@ -331,7 +358,10 @@ def split_cases(draw):
     return {"width": width, "rate": rate, "samples": samples, "entries": entries, "secondary": secondary, "points": pts,
             "tgflag": draw(st.sampled_from([False, True, True, "target", "sec"])),
             "style": draw(st.sampled_from([None, "append", "append_no_i", "label"])),
-            "nopartial": draw(st.booleans())}
+            "nopartial": draw(st.booleans()),
+            # an entry lying between two sample positions (it holds no sample position); a second run into a folder
+            # that still holds the pieces of an earlier run over other audio
+            "tiny": draw(st.integers(0, 2)) == 0, "rerun": draw(st.integers(0, 2)) == 0}
 
 
 @st.composite
